@@ -144,6 +144,15 @@ func localPosB() reflect.Type {
 	return typeOf[Pos]()
 }
 
+// MixedTags: the cty key is not the first (or not the only) key of the struct tag.
+type MixedTags struct {
+	Name string            `json:"name" cty:"name"`
+	Age  int               `json:"age,omitempty" yaml:"age" cty:"age"`
+	Tags []string          `cty:"tags" json:"tags"`
+	M    map[string]*int16 `xml:"m,attr"  cty:"m"`
+	In   *Inner            `json:"-" cty:"in"`
+}
+
 type entry struct {
 	name     string
 	t        reflect.Type
@@ -229,6 +238,8 @@ func family() []entry {
 	add(typeOf[PtrNums]())
 	add(typeOf[[]Inner]())
 	add(typeOf[map[string]*Outer]())
+	add(typeOf[MixedTags]())
+	add(typeOf[[]MixedTags]())
 	// same printed name, different types (see localRecA)
 	add(localRecA())
 	add(localRecB())
